@@ -13,64 +13,86 @@ open Sf Sf.Small2 Sf.Mpc2k
 
 /-! ### the 16-bit rate field -/
 
-/-- rates below 65536 are stored exactly; the stored value is always a 16-bit number and storing is idempotent -/
-theorem mpc2k_rate16 (sr : Nat) : (sr < 65536 → quant sr = sr) ∧ quant sr < 65536 ∧ quant (quant sr) = quant sr := by
+/-- rates up to 65535 are stored exactly, larger ones as 65535; the stored value is always a non-zero 16-bit number
+    (so the file can be re-opened) and storing is idempotent -/
+theorem mpc2k_rate16 (sr : Nat) : (sr < 65536 → quant sr = sr) ∧ (65536 ≤ sr → quant sr = 65535) ∧ quant sr < 65536 ∧
+    quant (quant sr) = quant sr ∧ (1 ≤ sr → 1 ≤ quant sr) := by
   unfold quant; omega
 
-example : quant 44100 = 44100 ∧ quant 65535 = 65535 ∧ quant 65536 = 0 ∧ quant 96000 = 30464 := by decide
+example : quant 44100 = 44100 ∧ quant 65535 = 65535 ∧ quant 65536 = 65535 ∧ quant 96000 = 65535 := by decide
 
-/-- the class of the known finding KF-RATE16-WRAP: the rate is a multiple of 65536 -/
+/-- the class of the repaired defect KF-RATE16-WRAP: the rate is a multiple of 65536 -/
 def KF.rate16Wrap (sr : Nat) : Prop := sr % 65536 = 0
 instance (sr : Nat) : Decidable (KF.rate16Wrap sr) := by unfold KF.rate16Wrap; infer_instance
 
 /-! ### closed files -/
 
+theorem closedBytesQ_eq (q : Nat → Nat) (c : Cfg) (hwf : c.wf) (stale : Nat) (ops : List WOp) :
+    closedBytes (fmtQ q c) stale ops =
+      hdrQ (q c.sr) c ⟨(((opsData ops).length / (2 * c.ch) : Nat) : Int), ((42 + (opsData ops).length : Nat) : Int), ((opsData ops).length : Nat)⟩ ++ opsData ops := by
+  rw [Small2.closedBytes_eq (fmtQ q c) (lawfulQ q c hwf.2.2.2) rfl stale ops]
+  show calcHdr (fmtQ q c) (42 + _) ++ _ = _
+  rw [calcHdrQ_eq]
+
 theorem closedBytes_eq (c : Cfg) (hwf : c.wf) (stale : Nat) (ops : List WOp) :
     closedBytes (fmt c) stale ops =
       hdr c { frames := (((opsData ops).length / (2 * c.ch) : Nat) : Int), filelength := ((42 + (opsData ops).length : Nat) : Int),
-              datalength := ((opsData ops).length : Nat) } ++ opsData ops := by
-  rw [Small2.closedBytes_eq (fmt c) (lawful c hwf.2.2.2) rfl stale ops]
-  show calcHdr (fmt c) (42 + _) ++ _ = _
-  rw [calcHdr_eq]
+              datalength := ((opsData ops).length : Nat) } ++ opsData ops :=
+  closedBytesQ_eq quant c hwf stale ops
 
-/-- what C04 asks of MPC2K (the rate "quantised by the documented unit": its low 16 bits) -/
-def mpc2k_reopen_full : Prop :=
+/-- what C04 asks of MPC2K under the rate rule `q` (the rate "quantised by the documented unit") -/
+def reopenFull (q : Nat → Nat) : Prop :=
   ∀ (c : Cfg), c.wf → ∀ (stale : Nat) (ops : List WOp),
-    parse (closedBytes (fmt c) stale ops) =
-      .ok { ch := c.ch, fmt := 0x210002, sr := quant c.sr, frames := (opsData ops).length / (2 * c.ch) }
+    parse (closedBytes (fmtQ q c) stale ops) =
+      .ok { ch := c.ch, fmt := 0x210002, sr := q c.sr, frames := (opsData ops).length / (2 * c.ch) }
 
-/-- **mpc2k_reopen_info** (`…_partial`: everything outside the class KF.rate16Wrap).  For every accepted
-    configuration and every session — no size guard: the reader takes the length from the file — the closed file
-    re-opens with the requested channels, MPC2K / PCM_16, the low 16 bits of the rate and
+def mpc2k_reopen_full : Prop := reopenFull quant
+
+/-- **mpc2k_reopen_info** (full strength since the repair of KF-RATE16-WRAP).  For every accepted configuration — every
+    rate in [1, 2^31-1] — and every session — no size guard: the reader takes the length from the file — the closed
+    file re-opens with the requested channels, MPC2K / PCM_16, the rate saturated to 16 bits (exact up to 65535) and
     frames = audio bytes / (2 · channels). -/
-theorem mpc2k_reopen_info (c : Cfg) (hwf : c.wf) (stale : Nat) (ops : List WOp) (hk : ¬ KF.rate16Wrap c.sr) :
+theorem mpc2k_reopen_info (c : Cfg) (hwf : c.wf) (stale : Nat) (ops : List WOp) :
     parse (closedBytes (fmt c) stale ops) =
       .ok { ch := c.ch, fmt := 0x210002, sr := quant c.sr, frames := (opsData ops).length / (2 * c.ch) } := by
-  rw [closedBytes_eq c hwf, parse_image c hwf]
-  exact readHeader_image c hwf _ _ hk
+  rw [closedBytes_eq c hwf]
+  show parse (hdrQ (quant c.sr) c _ ++ _) = _
+  rw [parse_image _ c hwf, readHeader_image _ c hwf _ _ (by rw [quant_field]; exact quant_pos _ hwf.2.1), quant_field]
 
-/-- inside the class the 16-bit field is 0 and validate_sfinfo refuses the file -/
-theorem mpc2k_rate0_not_reopened (c : Cfg) (hwf : c.wf) (stale : Nat) (ops : List WOp) (hk : KF.rate16Wrap c.sr) :
-    parse (closedBytes (fmt c) stale ops) = .err := by
-  rw [closedBytes_eq c hwf, parse_image c hwf]
-  exact readHeader_rate0 c hwf _ _ hk
+theorem mpc2k_reopen_full_holds : mpc2k_reopen_full := fun c hwf stale ops => mpc2k_reopen_info c hwf stale ops
 
-/-- the full statement fails: 65536 Hz is the witness (findings/kf_rate16_wrap.txt) -/
-theorem mpc2k_reopen_full_fails : ¬ mpc2k_reopen_full := by
+/-- **mpc2k_reopen_old_rule.**  Under the rule before the repair (`(uint16_t) samplerate`) a rate in the class
+    KF.rate16Wrap was stored as 0 and validate_sfinfo refused the closed file -/
+theorem mpc2k_reopen_old_rule (c : Cfg) (hwf : c.wf) (stale : Nat) (ops : List WOp) (hk : KF.rate16Wrap c.sr) :
+    parse (closedBytes (fmtOld c) stale ops) = .err := by
+  show parse (closedBytes (fmtQ quantOld c) stale ops) = .err
+  rw [closedBytesQ_eq quantOld c hwf, parse_image _ c hwf]
+  refine readHeader_rate0 _ c hwf _ _ ?_
+  unfold KF.rate16Wrap at hk
+  unfold quantOld; omega
+
+/-- the full statement failed under the old rule: 65536 Hz is the witness (findings/kf_rate16_wrap.txt) -/
+theorem mpc2k_reopen_full_old_rule_fails : ¬ reopenFull quantOld := by
   intro h
   have hwf : (⟨2, 65536, List.replicate 17 0x20⟩ : Cfg).wf := by decide
   have h1 := h ⟨2, 65536, List.replicate 17 0x20⟩ hwf 0 [.write [0, 1, 0, 2] false]
-  rw [mpc2k_rate0_not_reopened _ hwf 0 _ (by decide)] at h1
+  have h2 := mpc2k_reopen_old_rule ⟨2, 65536, List.replicate 17 0x20⟩ hwf 0 [.write [0, 1, 0, 2] false] (by decide)
+  rw [show fmtOld _ = fmtQ quantOld _ from rfl] at h2
+  rw [h2] at h1
   cases h1
+
+-- the witness of the repaired defect re-opens now, at 65535 Hz
+example : parse (closedBytes (fmt ⟨2, 65536, List.replicate 17 0x20⟩) 0 [.write [0, 1, 0, 2] false]) = .ok ⟨2, 0x210002, 65535, 1⟩ ∧
+    parse (closedBytes (fmtOld ⟨2, 65536, List.replicate 17 0x20⟩) 0 [.write [0, 1, 0, 2] false]) = .err := by decide +kernel
 
 def exCfg : Cfg := { ch := 2, sr := 44100 }
 def exOps : List WOp := [.write [0, 1, 0, 2] false, .update, .write [0, 3, 0, 4, 0, 5, 0, 6] true]
-example : exCfg.wf ∧ ¬ KF.rate16Wrap exCfg.sr ∧ (closedBytes (fmt exCfg) 77 exOps).length = 54 ∧
+example : exCfg.wf ∧ (closedBytes (fmt exCfg) 77 exOps).length = 54 ∧
     parse (closedBytes (fmt exCfg) 77 exOps) = .ok ⟨2, 0x210002, 44100, 3⟩ := by decide +kernel
 
 /-- **mpc2k_size_fields.**  The file is the 42-byte header plus the audio; the three frame-count fields (loop end,
     sample frames, loop length at offsets 26, 30, 34) hold the low 32 bits of audio bytes / (2 · channels), and the
-    rate field (offset 40) the low 16 bits of the rate. -/
+    rate field (offset 40) the rate saturated to 16 bits. -/
 theorem mpc2k_size_fields (c : Cfg) (hwf : c.wf) (stale : Nat) (ops : List WOp) (bytes : List Byte) (D : Nat)
     (hbytes : bytes = closedBytes (fmt c) stale ops) (hD : D = (opsData ops).length) :
     bytes.length = 42 + D ∧
@@ -79,28 +101,28 @@ theorem mpc2k_size_fields (c : Cfg) (hwf : c.wf) (stale : Nat) (ops : List WOp) 
     bytes.drop 42 = opsData ops := by
   have hn := hwf.2.2.2
   rw [closedBytes_eq c hwf, ← hD] at hbytes
-  have hlen : bytes.length = 42 + D := by rw [hbytes, hD]; simp [hdr, hn]; omega
+  have hlen : bytes.length = 42 + D := by rw [hbytes, hD]; simp [hdr, hdrQ, hn]; omega
   have hF : ∀ v : Nat, ofLE (le32 ((v : Nat) : Int)) = v % 2 ^ 32 := fun v => by rw [ofLE_le32, wrapU_nat_mod]
   have e : bytes = ([1, 4] ++ c.name ++ [100, 0, (c.ch - 1) % 2] ++ le32 0) ++ (le32 ((D / (2 * c.ch) : Nat) : Int) ++
-      (le32 ((D / (2 * c.ch) : Nat) : Int) ++ (le32 ((D / (2 * c.ch) : Nat) : Int) ++ ([0, 1] ++ (le16 (c.sr : Nat) ++ opsData ops))))) := by
-    rw [hbytes]; simp [hdr]
+      (le32 ((D / (2 * c.ch) : Nat) : Int) ++ (le32 ((D / (2 * c.ch) : Nat) : Int) ++ ([0, 1] ++ (le16 (quant c.sr : Nat) ++ opsData ops))))) := by
+    rw [hbytes]; simp [hdr, hdrQ]
   have h26 : ([1, 4] ++ c.name ++ [100, 0, (c.ch - 1) % 2] ++ le32 0).length = 26 := by simp [hn]
   have d26 := drop_append_len _ (le32 ((D / (2 * c.ch) : Nat) : Int) ++
-      (le32 ((D / (2 * c.ch) : Nat) : Int) ++ (le32 ((D / (2 * c.ch) : Nat) : Int) ++ ([0, 1] ++ (le16 (c.sr : Nat) ++ opsData ops))))) 26 h26
+      (le32 ((D / (2 * c.ch) : Nat) : Int) ++ (le32 ((D / (2 * c.ch) : Nat) : Int) ++ ([0, 1] ++ (le16 (quant c.sr : Nat) ++ opsData ops))))) 26 h26
   rw [← e] at d26
   have d30 : bytes.drop 30 = le32 ((D / (2 * c.ch) : Nat) : Int) ++ (le32 ((D / (2 * c.ch) : Nat) : Int) ++
-      ([0, 1] ++ (le16 (c.sr : Nat) ++ opsData ops))) := by
+      ([0, 1] ++ (le16 (quant c.sr : Nat) ++ opsData ops))) := by
     rw [show (30 : Nat) = 26 + 4 from rfl, ← List.drop_drop, d26]; exact drop_append_len _ _ 4 (le32_length _)
-  have d34 : bytes.drop 34 = le32 ((D / (2 * c.ch) : Nat) : Int) ++ ([0, 1] ++ (le16 (c.sr : Nat) ++ opsData ops)) := by
+  have d34 : bytes.drop 34 = le32 ((D / (2 * c.ch) : Nat) : Int) ++ ([0, 1] ++ (le16 (quant c.sr : Nat) ++ opsData ops)) := by
     rw [show (34 : Nat) = 30 + 4 from rfl, ← List.drop_drop, d30]; exact drop_append_len _ _ 4 (le32_length _)
-  have d40 : bytes.drop 40 = le16 (c.sr : Nat) ++ opsData ops := by
+  have d40 : bytes.drop 40 = le16 (quant c.sr : Nat) ++ opsData ops := by
     rw [show (40 : Nat) = 34 + (4 + 2) from rfl, ← List.drop_drop, d34, ← List.drop_drop, drop_append_len _ _ 4 (le32_length _)]
     exact drop_append_len [0, 1] _ 2 rfl
   refine ⟨hlen, ?_, ?_, ?_, ?_, ?_⟩
   · rw [d26, take_append_len _ _ 4 (le32_length _), hF]
   · rw [d30, take_append_len _ _ 4 (le32_length _), hF]
   · rw [d34, take_append_len _ _ 4 (le32_length _), hF]
-  · rw [d40, take_append_len _ _ 2 (le16_length _), le16_sr]
+  · rw [d40, take_append_len _ _ 2 (le16_length _), le16_q, quant_field]
   · rw [show (42 : Nat) = 40 + 2 from rfl, ← List.drop_drop, d40]; exact drop_append_len _ _ 2 (le16_length _)
 
 example : ofLE (((closedBytes (fmt exCfg) 77 exOps).drop 30).take 4) = 3 ∧ ofLE (((closedBytes (fmt exCfg) 77 exOps).drop 40).take 2) = 44100 := by
@@ -130,14 +152,14 @@ theorem mpc2k_open_image_stale : (openW (fmt exCfg) 0).bytes ≠ (openW (fmt exC
 /-! ### C11: header updates -/
 
 /-- **mpc2k_snapshot_valid.**  After any session prefix, the image a header update leaves in the store parses
-    (outside KF.rate16Wrap) with the same parameters and frames = audio bytes so far / (2 · channels), and is the
+    with the same parameters and frames = audio bytes so far / (2 · channels), and is the
     42-byte header followed by the audio written so far. -/
-theorem mpc2k_snapshot_valid (c : Cfg) (hwf : c.wf) (stale : Nat) (ops : List WOp) (hk : ¬ KF.rate16Wrap c.sr) :
+theorem mpc2k_snapshot_valid (c : Cfg) (hwf : c.wf) (stale : Nat) (ops : List WOp) :
     parse (snapshotBytes (fmt c) stale ops) =
       .ok { ch := c.ch, fmt := 0x210002, sr := quant c.sr, frames := (opsData ops).length / (2 * c.ch) } ∧
     ∃ hdr, hdr.length = 42 ∧ snapshotBytes (fmt c) stale ops = hdr ++ opsData ops := by
   rw [← closed_is_snapshot (fmt c) rfl stale ops]
-  refine ⟨mpc2k_reopen_info c hwf stale ops hk, calcHdr (fmt c) (42 + (opsData ops).length), ?_, ?_⟩
+  refine ⟨mpc2k_reopen_info c hwf stale ops, calcHdr (fmt c) (42 + (opsData ops).length), ?_, ?_⟩
   · exact (lawful c hwf.2.2.2).hlen _
   · exact Small2.closedBytes_eq (fmt c) (lawful c hwf.2.2.2) rfl stale ops
 
